@@ -9,6 +9,7 @@ CHUNK = 50
 RULE = ('One evaluation = one seeded history over run / dry-run / status / touch / clean / spec edit / hashing on|off (via gwf config) / rename / remove / add target / run with the k-th submission rejected. Oracle: parsed .gwf/spec-hashes.json == M_hash after every gwf command (set on accepted submission or touch while enabled, erased on clean, untouched otherwise), and every status table == M_status computed with M_hash.')
 PROFILE = dict(
     nontrivial_probes=['hash_file_checks'],
+    sizes=[1, 2, 3, 3, 4, 4, 5, 6, 8, 12, 16, 25],
     backends=["slurm", "slurm", "sge", "lsf", "local"],
     weights=dict(run=3, dry_run=1, status=2, start=2, finish=2.5, purge=0.3, acct_flush=0.3, modify_source=0.3,
                  delete_output=0.3, edit_spec=2.5, touch=1.5, clean=1.5, toggle_hashing=1, rename=0.4, remove=0.3, add=0.3,
